@@ -27,6 +27,9 @@ theorem restart_nil (g : Row H) : restart g [] = [{ g with id := 0 }] := by
 
 /-! ### rowsPreserved -/
 
+/-- decidable, so that the examples can evaluate it on concrete stores -/
+instance (s s' : Store H) : Decidable (rowsPreserved s s') := by unfold rowsPreserved; infer_instance
+
 theorem sameButState_refl (a : Row H) : sameButState a a :=
   ⟨rfl, rfl, rfl, rfl, rfl, rfl, rfl, rfl, rfl, rfl, rfl⟩
 
@@ -289,24 +292,6 @@ theorem anc_map (s : Store H) (f : Row H → Row H) (hf : ∀ a, (f a).hash = a.
     | some r =>
       have e' : byHash (s.map f) h = some (f r) := by rw [byHash_map s f hf, e]; rfl
       rw [anc_some e, anc_some e', hp, anc_map s f hf hp n r.prev]; rfl
-
-theorem lowestHeight_map (f : Row H → Row H) (hh : ∀ a, (f a).height = a.height) (c : List (Row H)) :
-    ∀ ht, lowestHeight (c.map f) ht = lowestHeight c ht := by
-  induction c with
-  | nil => intro ht; rfl
-  | cons a c ih =>
-    intro ht
-    show lowestHeight (c.map f) (min ht (f a).height) = lowestHeight c (min ht a.height)
-    rw [hh, ih]
-
-theorem filter_map_congr {α : Type} (f : α → α) (p : α → Bool) :
-    ∀ (c : List α), (∀ a ∈ c, p (f a) = p a) → (c.map f).filter p = (c.filter p).map f
-  | [], _ => rfl
-  | a :: c, h => by
-    have ha := h a List.mem_cons_self
-    have ih := filter_map_congr f p c (fun b hb => h b (List.mem_cons_of_mem _ hb))
-    rw [List.map_cons, List.filter_cons, List.filter_cons, ha, ih]
-    split <;> rfl
 
 /-- the candidate row computed on a relabelled store: only its label may differ -/
 theorem mkRow_map (cfg : Cfg H) (s : Store H) (x : Src H) (f : Row H → Row H)
